@@ -5,7 +5,7 @@
    state of the set must be terminal with the observed table size.  The trace monitors (socket owner
    on every write / send, at most one Close per socket) are evaluated on the log as well.
    Not part of any theorem. *)
-From Hy Require Import lib.Harness model.C07_UDPSessions.
+From Hy Require Import lib.Harness model.C07_UDPSessions model.C07_Birth.
 From Coq Require Import NArith List Bool.
 Local Open Scope N_scope.
 
@@ -270,11 +270,96 @@ Fixpoint monitor (owners : list (N * N)) (closed : list N) (tr : list event) : b
 Definition events_of (tr : list item) : list event :=
   flat_map (fun i => match i with Ev e => [e] | Quiet => [] end) tr.
 
-Inductive case := CHist (timeout : N) (count : N) (slow_dial slow_close slow_log : bool) (tr : list item).
+(* ---- stress histories (real goroutines, real clock; c07_stress_test.go) against model/C07_Birth.v ----
+   What the harness saw of every session id is one outcome code (Birth.code) plus the id's kind (how its remote / dial /
+   hook behaves).  The code must be one of the outcomes of the one-entry LTS under SOME schedule of receive loop, sweeper,
+   reply loop and final cleanup, explored exhaustively with the environment of that kind.  The clock of the exploration
+   is scaled: idle timeout 1, start 5; when the whole history took no longer than the idle timeout the clock may advance
+   by at most 1 in total (nothing can be older than the timeout), otherwise by 4.
+   A wedge is not a behaviour of the model (LocksP.no_deadlock / all_finish): the check is false.  Count() and the
+   goroutines left at the end must be 0 (C07_no_leak_at_exit, Birth one_close_event); a Close(nil) before the loss of the
+   connection must be older than the timeout (young_not_swept). *)
+Definition kind_env (k : N) : list Birth.bact :=
+  match k with
+  | 0 | 4 | 6 => Birth.env_refuse     (* refuse / echo / sendfail: the reply loop ends the session *)
+  | 1 => Birth.env_dialfail
+  | 2 => Birth.env_hookfail
+  | 3 => Birth.env_stay
+  | 5 => Birth.env_frag
+  | _ => []
+  end.
+
+Definition explore (k : N) (max_now : N) : list N * bool := Birth.outcomes 1 true (kind_env k) 5 [1] max_now 1 400.
+
+Definition young_refuse := Eval vm_compute in explore 0 6.
+Definition young_dialfail := Eval vm_compute in explore 1 6.
+Definition young_hookfail := Eval vm_compute in explore 2 6.
+Definition young_stay := Eval vm_compute in explore 3 6.
+Definition young_frag := Eval vm_compute in explore 5 6.
+Definition old_refuse := Eval vm_compute in explore 0 9.
+Definition old_dialfail := Eval vm_compute in explore 1 9.
+Definition old_hookfail := Eval vm_compute in explore 2 9.
+Definition old_stay := Eval vm_compute in explore 3 9.
+Definition old_frag := Eval vm_compute in explore 5 9.
+
+Definition outs (young : bool) (k : N) : list N * bool :=
+  match k with
+  | 0 | 4 | 6 => if young then young_refuse else old_refuse
+  | 1 => if young then young_dialfail else old_dialfail
+  | 2 => if young then young_hookfail else old_hookfail
+  | 3 => if young then young_stay else old_stay
+  | 5 => if young then young_frag else old_frag
+  | _ => ([], false)
+  end.
+
+(* every exploration ran to the end *)
+Example explorations_exhaustive :
+  forallb (fun k => snd (outs true k) && snd (outs false k)) [0; 1; 2; 3; 4; 5; 6] = true.
+Proof. vm_compute. reflexivity. Qed.
+
+(* with the code as it is no young session is reported closed as idle or has its datagram dropped; with the neighbouring
+   design (Last stamped by Feed only) both are outcomes of the very same exploration *)
+Definition dropped_code : N := 288.   (* one Close event, Close(nil) before the loss, no hook / New / dial / write *)
+Example code_never_drops_young :
+  forallb (fun k => negb (existsb (fun c => N.testbit c 5) (fst (outs true k)))) [0; 1; 2; 3; 4; 5; 6] = true.
+Proof. vm_compute. reflexivity. Qed.
+Example stamped_by_feed_drops_young :
+  existsb (N.eqb dropped_code) (fst (Birth.outcomes 1 false Birth.env_refuse 5 [1] 6 1 400)) = true.
+Proof. vm_compute. reflexivity. Qed.
+
+Inductive oc := Oc (code count : N).   (* code = Birth.code + 1024 * kind *)
+
+Definition code_allowed (young : bool) (o : oc) : bool :=
+  match o with Oc c _ => existsb (N.eqb (c mod 1024)) (fst (outs young (c / 1024))) end.
+
+Definition birth_ok (lo last hi : N) : bool :=
+  (* the model's creation action, run at a clock value inside the window the harness measured, stores that value *)
+  (lo <=? last) && (last <=? hi) &&
+  match Birth.bstep 0 true (Birth.set_rl (Birth.binit last 0) (Birth.BNew true)) Birth.ACreate with
+  | Some s => (Birth.b_last s =? last) && match Birth.b_born s with Some t => t =? last | None => false end
+  | None => false
+  end.
+
+Fixpoint zip3_all (f : N -> N -> N -> bool) (a b c : list N) : bool :=
+  match a, b, c with
+  | [], [], [] => true
+  | x :: a', y :: b', z :: c' => f x y z && zip3_all f a' b' c'
+  | _, _, _ => false
+  end.
+
+Inductive case :=
+| CHist (timeout : N) (count : N) (slow_dial slow_close slow_log : bool) (tr : list item)
+| CStress (timeout_ms wall_ms : N) (wedged : bool) (count left_goroutines : N) (min_nil_age_ms : option N) (hist : list oc)
+| CBirth (lo last hi : list N).
 
 Definition check (c : case) : bool :=
   match c with
   | CHist timeout count slow slowc slowl tr => monitor [] [] (events_of tr) && accepts timeout false slow slowc slowl 60 tr count
+  | CStress timeout wall wedged count leftg nilage hist =>
+      negb wedged && (count =? 0) && (leftg =? 0) &&
+      match nilage with None => true | Some a => timeout <? a end &&
+      forallb (code_allowed (wall <=? timeout)) hist
+  | CBirth lo last hi => match lo with [] => false | _ => zip3_all birth_ok lo last hi end
   end.
 
 Definition mismatches (l : list case) : list nat := mism_from check 0 l.
